@@ -1243,7 +1243,7 @@ fn chan_domain(args: &Args) {
         } else {
             vec![]
         };
-        let pol = Pol {
+        let mut pol = Pol {
             min_delay: 4,
             max_delay: 2016,
             max_channel_size_sat: maxsize,
@@ -1254,6 +1254,7 @@ fn chan_domain(args: &Args) {
             max_feerate: 333_333,
             rules,
         };
+        let mut maxsize = maxsize;
         let ctype = if witness || control { 1 } else { *rng.pick(&[1u8, 3]) };
         let cv = if witness || control {
             10_000_000_000
@@ -1316,6 +1317,17 @@ fn chan_domain(args: &Args) {
         }));
         let setup_ok = matches!(sr, Ok(Ok(_)));
         let phase1 = !(witness || control) && ctype == 1 && rng.chance(1, 2);
+        // one case in four: the operator lowers max_channel_size_sat after the channel was set up (a new
+        // validator factory, as a restart with a changed configuration installs it); the limit in force
+        // when a commitment is to be signed is the one that counts
+        let lowered = setup_ok && !(witness || control) && cv > 1_000_000 && rng.chance(1, 4);
+        if lowered {
+            maxsize = *rng.pick(&[cv - 1, cv - 1, cv, cv / 2]);
+            pol.max_channel_size_sat = maxsize;
+            let services = make_services(real_policy(&pol), onchain, &world);
+            node.set_validator_factory(services.validator_factory.clone());
+            *dist.entry("limit-lowered-after-setup".to_string()).or_insert(0) += 1;
+        }
         let mut steps_json = vec![];
         let mut coq_terms = vec![];
         let mut viols: Vec<String> = vec![];
